@@ -14,7 +14,7 @@ correspondence run validates this abstraction on every check.
 
 `write`.  The Rust loop is `while !queue.is_empty() { for _ in 0..queue.len() { pop_front … push_back } }`;
 the inner `for` only groups iterations, so the model is the plain FIFO loop `writeLoop` (fuel = number
-of nodes, `fuel_suffices` in Proofs).  The counter `child_begin` runs along.  Record fields are
+of nodes; `Proofs/TrieLayout.lean: write_isSome` shows it never runs out).  The counter `child_begin` runs along.  Record fields are
 written as the code does: `child_begin as u32`, `data_begin as u32` (wrapping casts, `% 2^32`), and
 — since the `fix:` commit for finding F13 — `u16::try_from(child_len)?`, `u16::try_from(data_len)?`
 (error = `none`).  `Document::encode_msg` refuses documents longer than `Length::MAX`.
@@ -172,7 +172,7 @@ def u32be (n : Nat) : Bytes := [n / 16777216 % 256, n / 65536 % 256, n / 256 % 2
 def recBytes (r : Rec) : Bytes := u32be r.1 ++ u16be r.2.1 ++ u16be r.2.2
 
 /-- the BFS of `write`; `none` = the function returns `Err` (or fuel exhausted, which
-    `write` never does: `Proofs.TrieLayout.fuel_suffices`) -/
+    `write` never does: `write_isSome`) -/
 def writeLoop : Nat → List Item → Nat → List Rec → Bytes → Option (List Rec × Bytes)
   | _, [], _, dict, data => some (dict, data)
   | 0, _ :: _, _, _, _ => none
